@@ -191,6 +191,36 @@ def run(ctx):
         raise vlib.Infra("design_blcase: %s" % bres.error)
     ctx.coverage["model_counterexample_blacklist_letter_case"] = bres.violated == "Sound"
 
+    # 1b. Quoting Enclave identity: the QE report of each vector with one bound / unbound bit flipped, or another ISVSVN, through the
+    # exported TCBBundle.Verify (mutations of a whole quote never get there: the PCK signature over the QE report fails first)
+    qe_path = ctx.path("qe.ndjson")
+    vlib.run_vh(ctx, ["attest-qe", "-out", qe_path])
+    qe_lines = open(qe_path).readlines()
+    rejq, nvq, nevq = vlib.validate_traces(ctx, SPEC, "TraceQE", "traceqe.cfg", qe_lines)
+    for seg in rejq:
+        vlib.report(ctx, "Quoting Enclave identity: %s at %s" % (seg["why"], seg["failing_event"][:300]),
+                    {"events_tail": seg["events"][-3:]}, {"clause": "qe-identity"})
+    qe_ev = [json.loads(x) for x in qe_lines if '"ev":"qe"' in x]
+    genuine_rejected = [e for e in qe_ev if e["field"] == "none" and not e["accepted"]]
+    if genuine_rejected:
+        raise vlib.Infra("attest-qe: the genuine QE report of a vector is rejected (harness out of step with the vectors)")
+    unbound_rejected = sum(1 for e in qe_ev if e["field"] in ("miscselect", "flags", "xfrm") and not e["masked"] and not e["accepted"])
+    if unbound_rejected:
+        line = "MODEL-DRIFT property=C18 %d Quoting Enclave reports that differ from the identity only in an unbound bit were rejected" % unbound_rejected
+        ctx.drift.append(line)
+        print(line)
+    forged = list(qe_lines)
+    for i, x in enumerate(forged):
+        if '"field":"flags"' in x and '"masked":true' in x and '"accepted":false' in x:
+            forged[i] = x.replace('"accepted":false', '"accepted":true')
+            break
+    rej_self, _, _ = vlib.validate_traces(ctx, SPEC, "TraceQE", "traceqe.cfg", forged, max_rounds=1)
+    if not rej_self or "Q1" not in rej_self[0]["why"]:
+        raise vlib.Infra("TraceQE self-test: an accepted bound-bit change was not rejected")
+    ctx.coverage.update(qe_identity_cases=len(qe_ev), qe_bound_bit_changes=sum(1 for e in qe_ev if e["masked"] and e["field"] != "isvsvn"),
+                        qe_unbound_bit_changes=sum(1 for e in qe_ev if not e["masked"] and e["field"] != "none"), qe_selftest="Q1 rejected")
+    ctx.log("QE identity: %d cases, %d rejected segments" % (len(qe_ev), len(rejq)))
+
     # 2. scenario table, generation, replay -----------------------------------------------------------
     vps = "30,500,2000" if q else "0,1,30,90,500,2000,65535"
     d = vlib.copy_specs(ctx, *SPEC)
